@@ -1,5 +1,5 @@
 (* C03 — XML -> WBXML -> XML round trip preserves the document and is idempotent.
-   Only statements, each closed by `exact`, with Print Assumptions beneath.
+   Only statements, each closed by `exact`, with the Print-Assumptions command under each.
 
    Aimed at (DESIGN.md C03): forall l o t, wf_tree l t -> build l (parse (enc_wbxml l o t)) = Ok (norm o t), norm idempotent,
    second iteration byte-identical.  What is PROVED here is the part that lives on the encoder's tree type
@@ -33,21 +33,21 @@ Print Assumptions C03_trim_keeps_text_non_blank.
 
 (* the encoder writes nothing for a blank-only text (trim mode) ... *)
 Theorem C03_blank_text_is_dropped_partial : forall e st p c,
-  is_binary_tag st = false -> in_cdata st = false -> e_ignore_empty e = true -> only_ws c = true ->
+  is_binary_tag st p = false -> in_cdata st = false -> e_ignore_empty e = true -> only_ws c = true ->
   enc_text e st p c = EOk ([], st).
 Proof. exact enc_text_blank. Qed.
 Print Assumptions C03_blank_text_is_dropped_partial.
 
 (* ... and encodes any other text exactly as it would encode its trimmed form: what reaches the WBXML is norm's text *)
 Theorem C03_encoder_sees_normalised_text_partial : forall e st p c,
-  is_binary_tag st = false -> in_cdata st = false -> e_remove_blanks e = true -> only_ws c = false ->
+  is_binary_tag st p = false -> in_cdata st = false -> e_remove_blanks e = true -> only_ws c = false ->
   enc_text e st p c = enc_text e st p (strip_blanks c).
 Proof. exact enc_text_normalised. Qed.
 Print Assumptions C03_encoder_sees_normalised_text_partial.
 
 (* with keep-ws the text is encoded as it is *)
 Theorem C03_keep_ws_text_untouched_partial : forall e st p c,
-  is_binary_tag st = false -> in_cdata st = false -> e_ignore_empty e = false -> e_remove_blanks e = false ->
+  is_binary_tag st p = false -> in_cdata st = false -> e_ignore_empty e = false -> e_remove_blanks e = false ->
   enc_text e st p c = enc_value e st false None [] p (cstr c).
 Proof. exact enc_text_keep. Qed.
 Print Assumptions C03_keep_ws_text_untouched_partial.
